@@ -11,7 +11,7 @@ from pyvc.core import Target
 from pyvc.se import find_def, Unsupported
 
 F = 'xmlschema/validators/schemas.py'
-t = Target('schemas.path_loops.no_alias_of_iterator_owned_lists', ['C20'], F, 'XMLSchemaBase.iter_errors',
+t = Target('schemas.path_loops.no_alias_of_iterator_owned_lists', ['C20', 'C04', 'C08', 'C06'], F, 'XMLSchemaBase.iter_errors',
            note='in iter_errors and iter_decode a list passed to the resource iterator as ancestors= is owned by the iterator: no other name is bound to the list itself '
                 '(only to copies: slices, list(...), .copy()), it is not stored in a container or an attribute, and the loop body does not rebind it',
            assumes=['syntactic obligation on the real AST (no solver)', 'the in-place update of the list by XMLResource.iterfind / iter_depth is the documented behaviour of their ancestors argument'])
